@@ -88,12 +88,14 @@ def keep_from_manifest(resp, head_prefix_hint=None):
 
 class Gen:
     def __init__(self, rng, n_ops=14, n_objects=2, layouts=None, hostile_ids=False, profile="general", live=None,
-                 two_clients=False):
+                 two_clients=False, weights=None, observe_history=False):
         self.rng = rng
         self.sc = Script()
         self.sc.live = live
         self.known = {}         # id -> (files, dirs) of the staged view last observed
         self.two_clients = two_clients
+        self.weights = weights or [30, 8, 16, 14, 10, 8, 2, 16, 1, 2, 1]
+        self.observe_history = observe_history
         self.n_ops = n_ops
         self.profile = profile
         lay = rng.choice(layouts or LAYOUTS[:2] + LAYOUTS[:1] * 2 + LAYOUTS)
@@ -153,6 +155,23 @@ class Gen:
         sc.add("ver", "ver %s -" % hx(oid), kind="view", id=oid)
         sc.add("files", "files %s" % hx(oid), kind="files", id=oid)
 
+    def observe_hist(self, oid):
+        sc, rng = self.sc, self.rng
+        sc.add("log", "log %s" % hx(oid), kind="log", id=oid)
+        r = sc.add("heads", "heads %s" % hx(oid), kind="plain", id=oid)
+        import re
+        m = re.search(r"main=v0*(\d+)", r or "")
+        n = int(m.group(1)) if m else 0
+        for _ in range(min(4, n * n)):
+            l, rt = rng.randint(1, max(n, 1)), rng.randint(1, max(n, 1))
+            sc.add("diff", "diff %s v%d v%d" % (hx(oid), l, rt), kind="diff", id=oid)
+        if n:
+            sc.add("diff", "diff %s - v%d" % (hx(oid), rng.randint(1, n)), kind="diff", id=oid)
+        for p in rng.sample(self.path_pool(oid), min(3, len(self.path_pool(oid)))):
+            if not any(c in p for c in "*?"):
+                sc.add("flog", "flog %s %s" % (hx(oid), hx(p)), kind="flog", id=oid)
+        sc.add("diffstaged", "diffstaged %s" % hx(oid), kind="diff", id=oid)
+
     def commit(self, oid, root=None):
         sc, rng = self.sc, self.rng
         user = rng.choice(USERS + [None])
@@ -170,9 +189,11 @@ class Gen:
             has_root = 1 if (self.layout[0] != "none" or root) else 0
             return "commit %s %d %s %s %s %s %s" % (hx(oid), has_root, hx(user) if user else "-", hx(addr) if addr else "-",
                                                    hx(msg) if msg else "-", created, keep)
-        sc.add("commit", h, d, kind="mut", id=oid)
+        r = sc.add("commit", h, d, kind="mut", id=oid, user=user, addr=addr, msg=msg, created=created)
         sc.add("manifest", "manifest %s" % hx(oid), kind="manifest", id=oid)
         self.observe_main(oid)
+        if self.observe_history:
+            self.observe_hist(oid)
         sc.add("heads", "heads %s" % hx(oid), kind="plain", id=oid)
 
     def path_pool(self, oid=None):
@@ -199,7 +220,7 @@ class Gen:
         if self.two_clients and rng.random() < 0.35:
             sc.add("client", "client %d" % rng.randint(0, 1), kind="skipd")
         op = rng.choices(["cpx", "mvx", "cpi", "mvi", "rm", "resetp", "resetall", "commit", "purge", "upgrade", "new"],
-                         [30, 8, 16, 14, 10, 8, 2, 16, 1, 2, 1])[0]
+                         self.weights)[0]
         if op == "cpx":
             srcs = rng.sample(EXT_FILES + ["d1", "d2", "d1/sub", "missing.txt"], rng.choice([1, 1, 1, 2, 3]))
             dst = rng.choice(["/", "", "a.txt", "new.txt", "d1", "d1/", "dir/", "d1/x.txt", "x/y/z", "e", "e/f", "bad/../p", "."])
@@ -363,6 +384,31 @@ def compare_step(step, h, d, contents, alg_of):
     if kind == "files":
         a, b = canon_pairs_h_files(h), canon_pairs_model(d)
         return a == b, "content files impl %s model %s" % (a, b)
+    if kind == "diff":
+        if not h.startswith("ok") or not d.startswith("ok"):
+            return outcome(h) == outcome(d), "diff outcome impl %s model %s" % (outcome(h), outcome(d))
+        items = []
+        for it in json.loads(h[3:]):
+            if it[0] == "R":
+                items.append("R:%s>%s" % (",".join(hx(x) for x in it[1]), ",".join(hx(x) for x in it[2])))
+            else:
+                items.append("%s:%s" % (it[0], hx(it[1])))
+        a, b = sorted(items), sorted(d[3:].split())
+        return a == b, "diff impl %s model %s" % (a, b)
+    if kind == "log":
+        if not h.startswith("ok") or not d.startswith("ok"):
+            return outcome(h) == outcome(d), "log outcome impl %s model %s" % (outcome(h), outcome(d))
+        def oh(x):
+            return "n" if x is None else "s" + hx(x)
+        a = ["v%d|%s|%s|%s|%s" % (int(v["v"][1:]), oh(v["user"]), oh(v["addr"]), oh(v["msg"]), v["created"]) for v in json.loads(h[3:])]
+        b = d[3:].split()
+        return a == b, "log impl %s model %s" % (a, b)
+    if kind == "flog":
+        if not h.startswith("ok") or not d.startswith("ok"):
+            return outcome(h) == outcome(d), "file log outcome impl %s model %s" % (outcome(h), outcome(d))
+        a = [int(v[1:]) for v in json.loads(h[3:])]
+        b = [int(v[1:]) for v in d[3:].split(",") if v]
+        return a == b, "file log impl %s model %s" % (a, b)
     if kind == "cat":
         if not h.startswith("ok") or not d.startswith("ok"):
             return outcome(h) == outcome(d), "cat outcome impl %s model %s" % (outcome(h), outcome(d))
